@@ -203,8 +203,14 @@ def inst_chunk(args):
                         continue
                     out['returned'] += 1
                     if bad is not None:
+                        # the recorded finding is a MISSING constraint check: the call goes ahead and returns the substitution
+                        # instance; going ahead with anything else is another defect and gets another signature
+                        try:
+                            plain = bridge.expand(res.conclusion) == refpat.minst(ep, ed, 'drop_mv')
+                        except Exception:  # noqa: BLE001  (no textbook instance to compare with)
+                            plain = True
                         out['viol'].append(({'rule': 'instantiate', 'interp': name, 'constraint': bad, 'premise': repr(p), 'delta': repr(delta),
-                                             'kind': 'inapplicable'},
+                                             'kind': 'inapplicable' if plain else 'inapplicable_and_not_the_instance'},
                                             f'{name}.instantiate({p}, { {k: str(v) for k, v in delta.items()} }) returned {res.conclusion} '
                                             f'although the plug violates the declared {bad} constraint'))
                         continue
